@@ -368,6 +368,11 @@ func main() {
 	fidelity(r, kit.SSSE, r.Pick(150, 1500), 4)
 	textFidelity(r, kit.SSSE, r.Pick(150, 2000), 4)
 	regHistories(r, kit.SSSE, r.Pick(40, 400), 24)
+	handlerOutcomes(r, kit.SSSE, r.Pick(140, 1400))
+	handlerOutcomes(r, kit.SLSSE, r.Pick(70, 700))
+	if r.Counter("outcome_handler_errors_returned") == 0 {
+		r.Inconclusive("handler outcomes: not one call whose handlers returned an error conformed, nothing of the scenario can be claimed to hold")
+	}
 	midCall(r, []kit.Kind{kit.SSSE, kit.SLSSE}, r.Pick(12, 60))
 	fanoutAll(r)
 	runCalls(r, kit.SSSE, true, n, 1, 200)
@@ -387,10 +392,11 @@ func main() {
 	regHistories(r, kit.SLSSE, r.Pick(20, 200), 24)
 	eventIDs(r, kit.SSSE, r.Pick(150, 1500))
 	eventIDs(r, kit.SLSSE, r.Pick(80, 800))
-	r.Finish("a tool emits a seeded script of 0-200 progress / log / custom notifications (bursts without sleeps, sizes 0-256 KiB, _meta absent / empty / present) tagged (call nonce, seq); library client handlers append (logical clock, nonce, seq, params, _meta), the call's return is stamped with the same clock; per call: exact sequence equality, every handler stamp < return stamp, params and _meta equal, result intact; 1 / 8 / 16 concurrent calls on one client; stateful and stateless SSE answers; JSON answers and no-handler runs must drop the notifications and leave the result intact; a raw peer records every id: line per POST stream (pairwise distinct); concurrent emitters: a tool fans out to G goroutines (G seeded from {2,4,12,32}) that, after a start barrier, each emit a burst (seeded size and pause) through SendProgress / SendLogMessage / SendCustomNotification / SendNotification - all four interleaved or one of them - and are joined before the handler returns; a raw peer reads the POST answer stream with the reference SSE parser (stateful and stateless, 1 or 3 calls at a time): all id: lines of the stream incl. the result's pairwise distinct, one id: line per event, every notification exactly once, each goroutine's notifications in its own emission order with parameters intact, exactly one result and it is the last event; the same tool through the library client with handlers for the four methods (exactly once, per-goroutine order, handler stamps < return stamp, result intact); G goroutines calling Server.SendNotification for one session while a raw peer reads that session's listening stream (Streamable with SSE and with JSON answers), and SSEServer.SendNotification on a legacy stream: id: lines pairwise distinct (deliveries counted only); monitors count events, streams, id lines, distinct ids and the largest number of goroutines seen inside a send at once; registration histories: one client walks a seeded history of register / replace / unregister / register-again on the three methods between calls, every handler value carries a generation, and each call's notifications must have reached exactly the generation registered at that moment (none when unregistered); operations while a call's stream is open (stateful and stateless SSE answers, a fresh client per case, tool emitg whose script can park at gates the harness opens): (actor=handler) the handler that receives a seeded position of the script unregisters its own method (one-shot handler, also at the last notification), replaces itself, registers / replaces / unregisters another method, runs tools/list or a nested emitting tools/call on the same client and waits for it, or closes the client at the last notification; (actor=other) while call A is parked at a gate in the middle of its script other goroutines register / unregister / replace handlers or close the client and start further calls B (1-2 emitting calls, tools/list) on the same client - A's gate opens only after B has returned - at one or two gates; then a follow-up call on the quiet client. Every table operation is a logical-clock interval, every handler value has a generation: a notification of a call may reach generation g iff g was possibly registered for its method at some moment between the call's invocation and the delivery, may reach nobody iff no handler was possibly registered at some moment of the call; per call strictly increasing seq (order, at most once), handler stamps < return stamp, method / params / _meta as emitted, result intact (after Close an error is accepted); a call that has not returned after the watchdog is a violation only when two goroutine dumps 3 s apart show its goroutine parked on a lock inside the library, otherwise inconclusive; value-shape fidelity: a second tool sends, through every entry point of the sender (SendCustomNotification, SendNotification of a Notification made by NewNotification / NewJSONRPCNotificationFromMap / by hand with _meta in the Meta field or among the additional fields, SendProgress, SendLogMessage), the full product entry x params shape x _meta shape (mcp.Meta, map[string]string/int/float64, structs, pointers, nil pointers, json.RawMessage, json.Number, json.Marshaler, typed nil / untyped nil / empty maps, nested maps and slices, float64 and int64 boundaries, unicode / control characters / invalid UTF-8, members named _meta / method / jsonrpc / id inside params, nil and empty params, unencodable values) and seeded plans that send the same map / Notification / _meta value again, and scramble the value in place right after the send returns; the tool encodes the plain Go value with encoding/json right before each send, the client handler re-encodes what it got, and per position method and params (incl. _meta) must be equal as JSON values, delivered before the return, result intact.; text fidelity: a third tool sends every string of a catalogue (literal backslash sequences that look like JSON escapes - backslash-u0026 / u003c / u003e / u2028 / n / quote / backslash, lone and trailing backslashes, backslash-u + non-hex, backslash-ud800 -, the characters encoding/json escapes by default (< > & U+2028 U+2029) alone and next to backslashes, HTML entities, percent signs and printf verbs, quotes and member-injection lookalikes, NUL and all other control characters, BOM / non-characters / U+10FFFF, invalid UTF-8, event-stream-looking text, strings that are JSON documents such as an upstream body made by encoding/json, strings of 64-200 KiB) in every string position (progress message, log message, log level, top-level and nested params values and keys, map[string]string / struct / *string / []string members, a json.RawMessage encoded without HTML escaping, _meta values, keys and nested members, the method name, all of them at once next to a second catalogue string) of every sender entry point, one string per call, then seeded plans whose strings are concatenations of 1-10 fragments of those families; the tool encodes the plain Go params with encoding/json right before each send, the handlers (one registered per method) re-encode what they got: per call same count and order, each at the handler of its method, params incl. _meta equal as JSON values, handler stamps < return stamp, result (echoing the last string) intact. Distinct = (mode, script shape) that conformed, (observer, kind, G, entry point, emitters overlapped) whose fan-out call / stream conformed, (registration class) that conformed, (kind, actor, mid-call operation class, shape) whose case conformed with the operation actually performed, (entry, params shape) / (entry, _meta shape) / (entry, aliasing mode) whose notifications all arrived as emitted, (kind, entry, string position) / (kind, catalogue string class) / (kind, fragment family) whose notifications all arrived as emitted.",
+	r.Finish("a tool emits a seeded script of 0-200 progress / log / custom notifications (bursts without sleeps, sizes 0-256 KiB, _meta absent / empty / present) tagged (call nonce, seq); library client handlers append (logical clock, nonce, seq, params, _meta), the call's return is stamped with the same clock; per call: exact sequence equality, every handler stamp < return stamp, params and _meta equal, result intact; 1 / 8 / 16 concurrent calls on one client; stateful and stateless SSE answers; JSON answers and no-handler runs must drop the notifications and leave the result intact; a raw peer records every id: line per POST stream (pairwise distinct); concurrent emitters: a tool fans out to G goroutines (G seeded from {2,4,12,32}) that, after a start barrier, each emit a burst (seeded size and pause) through SendProgress / SendLogMessage / SendCustomNotification / SendNotification - all four interleaved or one of them - and are joined before the handler returns; a raw peer reads the POST answer stream with the reference SSE parser (stateful and stateless, 1 or 3 calls at a time): all id: lines of the stream incl. the result's pairwise distinct, one id: line per event, every notification exactly once, each goroutine's notifications in its own emission order with parameters intact, exactly one result and it is the last event; the same tool through the library client with handlers for the four methods (exactly once, per-goroutine order, handler stamps < return stamp, result intact); G goroutines calling Server.SendNotification for one session while a raw peer reads that session's listening stream (Streamable with SSE and with JSON answers), and SSEServer.SendNotification on a legacy stream: id: lines pairwise distinct (deliveries counted only); monitors count events, streams, id lines, distinct ids and the largest number of goroutines seen inside a send at once; registration histories: one client walks a seeded history of register / replace / unregister / register-again on the three methods between calls, every handler value carries a generation, and each call's notifications must have reached exactly the generation registered at that moment (none when unregistered); operations while a call's stream is open (stateful and stateless SSE answers, a fresh client per case, tool emitg whose script can park at gates the harness opens): (actor=handler) the handler that receives a seeded position of the script unregisters its own method (one-shot handler, also at the last notification), replaces itself, registers / replaces / unregisters another method, runs tools/list or a nested emitting tools/call on the same client and waits for it, or closes the client at the last notification; (actor=other) while call A is parked at a gate in the middle of its script other goroutines register / unregister / replace handlers or close the client and start further calls B (1-2 emitting calls, tools/list) on the same client - A's gate opens only after B has returned - at one or two gates; then a follow-up call on the quiet client. Every table operation is a logical-clock interval, every handler value has a generation: a notification of a call may reach generation g iff g was possibly registered for its method at some moment between the call's invocation and the delivery, may reach nobody iff no handler was possibly registered at some moment of the call; per call strictly increasing seq (order, at most once), handler stamps < return stamp, method / params / _meta as emitted, result intact (after Close an error is accepted); a call that has not returned after the watchdog is a violation only when two goroutine dumps 3 s apart show its goroutine parked on a lock inside the library, otherwise inconclusive; value-shape fidelity: a second tool sends, through every entry point of the sender (SendCustomNotification, SendNotification of a Notification made by NewNotification / NewJSONRPCNotificationFromMap / by hand with _meta in the Meta field or among the additional fields, SendProgress, SendLogMessage), the full product entry x params shape x _meta shape (mcp.Meta, map[string]string/int/float64, structs, pointers, nil pointers, json.RawMessage, json.Number, json.Marshaler, typed nil / untyped nil / empty maps, nested maps and slices, float64 and int64 boundaries, unicode / control characters / invalid UTF-8, members named _meta / method / jsonrpc / id inside params, nil and empty params, unencodable values) and seeded plans that send the same map / Notification / _meta value again, and scramble the value in place right after the send returns; the tool encodes the plain Go value with encoding/json right before each send, the client handler re-encodes what it got, and per position method and params (incl. _meta) must be equal as JSON values, delivered before the return, result intact.; text fidelity: a third tool sends every string of a catalogue (literal backslash sequences that look like JSON escapes - backslash-u0026 / u003c / u003e / u2028 / n / quote / backslash, lone and trailing backslashes, backslash-u + non-hex, backslash-ud800 -, the characters encoding/json escapes by default (< > & U+2028 U+2029) alone and next to backslashes, HTML entities, percent signs and printf verbs, quotes and member-injection lookalikes, NUL and all other control characters, BOM / non-characters / U+10FFFF, invalid UTF-8, event-stream-looking text, strings that are JSON documents such as an upstream body made by encoding/json, strings of 64-200 KiB) in every string position (progress message, log message, log level, top-level and nested params values and keys, map[string]string / struct / *string / []string members, a json.RawMessage encoded without HTML escaping, _meta values, keys and nested members, the method name, all of them at once next to a second catalogue string) of every sender entry point, one string per call, then seeded plans whose strings are concatenations of 1-10 fragments of those families; the tool encodes the plain Go params with encoding/json right before each send, the handlers (one registered per method) re-encode what they got: per call same count and order, each at the handler of its method, params incl. _meta equal as JSON values, handler stamps < return stamp, result (echoing the last string) intact; handler outcomes: handlers registered for every non-empty subset of the three methods look their outcome up in a plan keyed by (call nonce, seq) - return nil, return an error (plain, wrapped, io.EOF, io.ErrUnexpectedEOF, context.Canceled, context.DeadlineExceeded, a library sentinel, wrapped io.EOF), yield / sleep 1-8 ms and then return nil or an error - with plans: error for every delivered notification, for the first, one in the middle, the last before the result, a seeded subset, slow handlers alone and combined with errors, nil everywhere; 1 or 2-4 calls at a time on one client, stateful and stateless SSE answers; per call: it returns its result intact, the handlers saw exactly the notifications of their methods in emission order with params / _meta as emitted, every handler had finished (stamp taken at its end) before the return stamp. Distinct = (mode, script shape) that conformed, (observer, kind, G, entry point, emitters overlapped) whose fan-out call / stream conformed, (registration class) that conformed, (kind, actor, mid-call operation class, shape) whose case conformed with the operation actually performed, (entry, params shape) / (entry, _meta shape) / (entry, aliasing mode) whose notifications all arrived as emitted, (kind, entry, string position) / (kind, catalogue string class) / (kind, fragment family) whose notifications all arrived as emitted, (kind, outcome plan, positions of the errors among the delivered notifications, registered methods, one / several calls) whose call conformed with the planned errors actually returned, (kind, notification kind, error value kind) returned by a handler of a conforming call.",
 		[]string{"handler timing is judged by a logical clock, not wall time",
 			"concurrent emitters: emissions of different goroutines of one handler are unordered, only each goroutine's own sequence is an emission order; a send that returned an error is not an emission; on the listening and legacy streams only the id: lines are judged (delivery there is not this property's), and the legacy SSE stream is expected to carry no id: lines at all (counted in fanout_legacy_id_lines); data races as such are property C20's, here only their visible effect on the stream is judged",
 			"mid-call operations: the statement does not say at which moment of a call 'the handler registered for the method' is read - the handler table as it was when the call started and the table as it is at delivery are both accepted (monitors midcall_delivered_to_* count what was seen); how long a registration issued during an open call takes is not judged; after Close on the client a call may return an error instead of its result, but it must return",
+			"handler outcomes: the statement puts no condition on what a handler returns or how long it takes, so delivery, order and the result are required whatever the handlers return; handler panics are not exercised (the statement promises nothing about them); how a handler's error is reported (logged or not) is not judged; only the POST answer stream is exercised (the statement speaks of Streamable HTTP with an SSE response)",
 			"fidelity: numbers are compared with float64 semantics (what the client API hands to a handler); a top-level _meta that is null or {} counts as absent, params null as {}; progress / log notifications may carry extra members; a send that returns an error is not an emission; a send that changes the caller's own map is counted (fidelity_send_changed_callers_value), not judged",
 			"text fidelity: strings are compared after decoding, so how a character is spelled on the wire (escaped or not) is not judged; invalid UTF-8 is expected as the tool's own json.Marshal renders it (U+FFFD); method names are \"notifications/\" + the string and only valid UTF-8 strings of at most 2 KiB are used as method names; a call that ends on the harness's own 10-minute context is inconclusive"})
 }
